@@ -172,3 +172,54 @@ func (v *VerifRouting) KernRuleBytesAtRing(allocStartIdx uint32) ([][]byte, erro
 func (v *VerifRouting) DomainBitmap(name string) []uint32 {
 	return v.Matcher.domainMatcher.MatchDomainBitmap(name)
 }
+
+// VerifCompileRoutingSectionsOrder is VerifCompileRoutingSections with the moment the kernel-side material
+// (KernRuleBytes/KernRules/LpmSets) is taken made explicit. snapshotAfterUserspace=false is the cold-start order
+// (what VerifCompileRoutingSections does: before BuildUserspace); true is the staged-reload / rollback order:
+// builder.KernspaceSnapshot() first, then BuildUserspace(), then the snapshot's rules and prefix sets are read —
+// what routingKernspaceSnapshot.BuildKernspace installs from CommitPreparedDatapath / RebuildReloadDatapath.
+func VerifCompileRoutingSectionsOrder(sections []*config_parser.Section, groups []string, optimizers []routing.RulesOptimizer, snapshotAfterUserspace bool) (*VerifRouting, error) {
+	if !snapshotAfterUserspace {
+		return VerifCompileRoutingSections(sections, groups, optimizers)
+	}
+	conf, err := config.New(sections)
+	if err != nil {
+		return nil, fmt.Errorf("config.New: %w", err)
+	}
+	name2id := map[string]uint8{}
+	name2id[consts.OutboundDirect.String()] = uint8(consts.OutboundDirect)
+	name2id[consts.OutboundBlock.String()] = uint8(consts.OutboundBlock)
+	for i, g := range groups {
+		name2id[g] = uint8(int(consts.OutboundUserDefinedMin) + i)
+	}
+	v := &VerifRouting{Name2Id: name2id, Fallback: conf.Routing.Fallback}
+	v.Rules = routing.DeepCloneRules(conf.Routing.Rules)
+	log := VerifQuietLogger()
+	program, err := routing.NewNormalizedProgram(conf.Routing.Rules, conf.Routing.Fallback, optimizers...)
+	if err != nil {
+		return nil, fmt.Errorf("normalize: %w", err)
+	}
+	v.OptRules = program.Rules
+	b, err := NewRoutingMatcherBuilderFromProgram(log, program, name2id, nil)
+	if err != nil {
+		return nil, fmt.Errorf("builder: %w", err)
+	}
+	v.Builder = b
+	for _, ds := range b.simulatedDomainSet {
+		v.DomainSets = append(v.DomainSets, VerifDomainSet{Key: string(ds.Key), RuleIndex: ds.RuleIndex, Domains: append([]string(nil), ds.Domains...)})
+	}
+	snap := b.KernspaceSnapshot()
+	m, err := b.BuildUserspace()
+	if err != nil {
+		return nil, fmt.Errorf("userspace: %w", err)
+	}
+	v.kernRules = append([]bpfMatchSet(nil), snap.rules...)
+	v.lpmSets = make([][]netip.Prefix, len(snap.simulatedLpmTries))
+	for i, set := range snap.simulatedLpmTries {
+		v.lpmSets[i] = append([]netip.Prefix(nil), set...)
+	}
+	v.Matcher = m
+	v.CP = &ControlPlane{log: log}
+	v.CP.routingMatcher = m
+	return v, nil
+}
